@@ -176,3 +176,28 @@ META.update({
 
 NOT_BUILT_REASON = "check not built yet at this commit (work in progress; see DESIGN.md §7 priorities)"
 ALL = ["C%02d" % i for i in range(1, 21)]
+
+
+# ---- deductive coverage added after the first bounded pass: which properties now also carry proof obligations
+_P = {
+    "C01": (2, "PROVED: _parse_gfa_tag returns exactly the name / datatype / value substrings of an accepted tag (the tag reappears unchanged). "),
+    "C02": (15, "PROVED (all list contents, unbounded): _delete_reference removes exactly one occurrence keeping the order of the others (loop invariant), _add_reference adds exactly one occurrence at the end / front; no KeyError/IndexError. "),
+    "C05": (10, "PROVED: the list helper _delete_reference that the removal cascade relies on (see C02). "),
+    "C06": (70, "PROVED (all lengths and positions): link and containment coordinates equal the specification (each coordinate carries $ iff it equals the segment length), beg/end accessors, LastPos subtraction, "
+                "the E-line readings (_segment_role, _is_sid1_from, oriented_from/to, pos, overlap direction), CIGAR reference/query lengths as weighted sums (loop invariants), interval classification. "),
+    "C10": (190, "PROVED (frame obligations, all inputs): for ~200 functions of the read-only API the modular effect analysis of the real source shows writes(F) = {} modulo five named benign caches; "
+                 "CIGAR.complement additionally has a functional + frame contract (fresh result, receiver unchanged, loop invariant); WriterWoSequence.__str__ restores its temporary write. "),
+    "C12": (30, "PROVED (all CIGAR lengths, unbounded): complement()[k] = swap(self[n-1-k]) with lengths kept and the receiver unchanged; length_on_reference / length_on_query are the weighted sums; "
+                "Operation equality; is_same / is_complement / is_eql are the stated Boolean functions; E-line overlap direction; symbol inversion. "),
+    "C14": (15, "PROVED kernels: from_end / to_end, symbol inversion, connectivity symbol, CIGAR length sums. "),
+    "C15": (12, "PROVED: _auto_select_distribute_end satisfies the documented clauses for all sizes; the window arithmetic of _distribute_links covers every neighbour (SMT lemma, also in Lean). "),
+    "C16": (5, "PROVED kernels: from_end / to_end end types, connectivity symbol. "),
+    "C19": (190, "PROVED (frame): clone() and every other read-only function writes nothing to the receiver (effect analysis, see C10). "),
+    "C20": (12, "PROVED (all integer ranges): integer_type returns the smallest subtype of the right signedness that holds [lo,hi] and raises ValueError iff none does. "),
+}
+for _p, (_n, _txt) in _P.items():
+    META[_p]["tierP"] = True
+    META[_p]["min_obligations"] = _n
+    META[_p]["level"] = "other"
+    META[_p]["claim"] = _txt + META[_p]["claim"]
+    META[_p]["technique"] = TECH_PB
